@@ -169,7 +169,10 @@ func checks() map[string]*Check {
 	app("C06", RunSpec{Scen: "w2.takeover", Quick: 24, Thorough: 600}, RunSpec{Scen: "w1", Params: "snapshots=1,crash=1,snapthr=5", Quick: 32, Thorough: 800},
 		RunSpec{Scen: "w2.installcrash", Params: "snapshots=1", Quick: 24, Thorough: 600})
 	app("C07", RunSpec{Scen: "w2.nvquorum", Quick: 12, Thorough: 300})
-	app("C10", RunSpec{Scen: "w1", Params: "snapshots=1,crash=1,snapus=6000,pad=40000,voters=3", Quick: 16, Thorough: 400})
+	app("C10", RunSpec{Scen: "w1", Params: "snapshots=1,crash=1,snapus=6000,pad=40000,voters=3", Quick: 16, Thorough: 400},
+		RunSpec{Scen: "w2.members", Params: "voters=4,snapshots=1,snapthr=4", Quick: 24, Thorough: 600})
+	app("C06", RunSpec{Scen: "w1", Params: "crash=1,torn=1,crashbias=1,steps=30,voters=3", Quick: 16, Thorough: 400})
+	app("C07", RunSpec{Scen: "w1", Params: "snapshots=1,crash=1,torn=1,crashbias=1,steps=30", Quick: 24, Thorough: 600})
 	app("C07", RunSpec{Scen: "w2.staleinstall", Params: "snapshots=1,snapthr=6,pad=100", Quick: 16, Thorough: 400}, RunSpec{Scen: "w2.takeover", Quick: 24, Thorough: 600}, RunSpec{Scen: "w2.figure8", Quick: 24, Thorough: 600}, RunSpec{Scen: "w2.acklose", Quick: 16, Thorough: 400})
 	app("C08", RunSpec{Scen: "w2.votes", Quick: 24, Thorough: 600})
 
